@@ -228,6 +228,19 @@ def check_set_backend():
             return 'get_ioport_names() = %r' % (names,)
         if mido.backend.name != MODNAMES['mod'] or mido.open_input.__self__ is not mido.backend:
             return 'mido.backend / bound methods not rebound'
+        # the same module again with another API: everything must be rebound
+        REC.calls = []
+        mido.set_backend(MODNAMES['mod'] + '/NB')
+        mido.open_output('y')
+        mido.get_input_names()
+        if [c[3].get('api') for c in REC.calls] != ['NB', 'NB']:
+            return 'after set_backend(same module, other API) the calls carried %r' % (REC.calls,)
+        b3 = mido.Backend(MODNAMES['mod'], api='KC', use_environ=False)
+        mido.set_backend(b3)
+        REC.calls = []
+        mido.open_input()
+        if mido.backend is not b3 or mido.open_ioport.__self__ is not b3 or REC.calls[0][3].get('api') != 'KC':
+            return 'set_backend(Backend object for the current module) did not rebind (%r)' % (REC.calls,)
         b2 = mido.Backend(MODNAMES['emod'])
         mido.set_backend(b2)
         if mido.backend is not b2 or mido.get_input_names.__self__ is not b2:
